@@ -5,6 +5,7 @@ import DesyncModel.Spec
 import DesyncModel.Tables.Panic
 import DesyncModel.Tables.Sync
 import DesyncModel.Tables.Wake
+import DesyncModel.Inv.RunReach
 
 namespace Desync.C04
 open Desync Gen
@@ -32,5 +33,14 @@ theorem waiter_can_claim (st : QState) (h : st.claimable = true) : claim st = (.
 theorem no_park_on_wake :
     runOnePending .awokenWhileRunning = (.running, .continue) ∧ parkCheck .running = .continue ∧ parkCheck .awokenWhileRunning = .continue :=
   ⟨remembered_wake_repolls.2.1, remembered_wake_repolls.2.2.2, remembered_wake_repolls.2.2.1⟩
+
+/-- **`sync` runs its closure at most once, in every reachable state**: whichever of its three strategies the call took, the
+job that carries the closure (created already running by sync_immediate, or queued as a lifetime-erased job by sync_drain /
+sync_background) is started only if its closure has not been invoked before. -/
+theorem sync_closure_runs_at_most_once {s : State} (hr : Reachable s) {a j owner : Nat} {body : Body} {c : Ctx} {k : Pc} {jb : Job}
+    (hpc : s.pcAt a = .jobStart j c k) (hj : s.jobs[j]? = some jb)
+    (hk : jb.kind = .erasedDrain owner body ∨ jb.kind = .erasedBg owner body ∨ jb.kind = .immediate owner body) : jb.begun = false := by
+  refine closure_invoked_at_most_once hr (Or.inl hpc) hj ?_
+  rcases hk with h | h | h <;> rw [h] <;> rfl
 
 end Desync.C04
